@@ -27,7 +27,7 @@ class C11(ProgramProperty):
         recs = gen.records(rng, ":", forbid_delim=False, patterns=True)
         ps = gen.all_prefixes(recs)
         unknown = [w for w in ["x", "y", "zzz", "NEW", "c"] + [gen.word(rng, 1, 2)] if w not in ps]
-        pool = ps + unknown
+        pool = list(dict.fromkeys(ps + unknown))    # a remapping is a dict: keys are distinct
         n = rng.choice([1, 1, 2, 2, 3, 4])
         keys = rng.sample(pool, min(n, len(pool)))
         rm = []
